@@ -87,8 +87,8 @@ def library_panic(stderr):
 # Thorough tier: how much the seeded parts of each family's generator are multiplied (harness: tierInt * VERIF_DEPTH).
 # Calibrated on this 16-core sandbox so that a thorough run of a property takes roughly 5-10 minutes;
 # VERIF_DEPTH in the environment overrides it.
-DEPTH = {"C01": 8, "C02": 6, "C03": 6, "C04": 5, "C05": 300, "C06": 6, "C07": 1000, "C08": 4, "C09": 1, "C10": 16,
-         "C11": 8, "C12": 16, "C13": 16, "C14": 10, "C15": 12, "C16": 1, "C17": 2, "C18": 1000, "C19": 1, "C20": 1}
+DEPTH = {"C01": 24, "C02": 16, "C03": 16, "C04": 12, "C05": 600, "C06": 16, "C07": 2500, "C08": 10, "C09": 2, "C10": 64,
+         "C11": 24, "C12": 48, "C13": 20, "C14": 14, "C15": 40, "C16": 1, "C17": 5, "C18": 4000, "C19": 1, "C20": 1}
 
 
 class Ctx:
@@ -275,7 +275,14 @@ class Ctx:
                         "distinct": int(m.group(2)), "wall_s": round(r["wall"], 1), "role": "behaviour generation"})
         self.checker_cmds.append(r["cmd"])
         items = []
-        for x in re.findall(r'<<"BEHAVIOUR", (.*?)>>\n', out, flags=re.S):
+        # TLC's pretty-printer wraps a value that does not fit its line width ("<< \"BEHAVIOUR\",\n   ... >>"), continuation
+        # lines are indented: a behaviour ends at the first ">>" at the end of a line that is followed by an unindented line
+        found = re.findall(r'<<\s*"BEHAVIOUR",\s*(.*?)\s*>>\n(?!\s)', out, flags=re.S)
+        if len(found) != out.count('"BEHAVIOUR"'):
+            raise Infra("behaviour generation %s: %d behaviours printed, %d parsed" % (module, out.count('"BEHAVIOUR"'), len(found)))
+        for x in found:
+            if "\n" in x:      # a wrapped value: undo the pretty-printing (no generated name or string contains white space)
+                x = re.sub(r"\s+", " ", x).replace("<< ", "<<").replace(" >>", ">>")
             x = x.strip()
             if x.startswith('"') and x.endswith('"'):
                 x = x[1:-1].replace('\\"', '"').replace("\\\\", "\\")
